@@ -20,6 +20,7 @@ RULE = ('A generated ledger (G1); read sweep: spacing_before / spacing_after / r
         'are unchanged, a non-empty assignment reads back as assigned, and all tokens outside the run keep identity; a second job interleaves '
         'the assignments with value / slot / list / copy / arithmetic edits and keeps accessing what those edits created or moved. Non-trivial = a zero-width token '
         'is adjacent on the accessed side, or the run contains a newline, or the neighbour is an indent or a comment.')
+RULE = RULE + ' Round 8: insert-then-space sweep (every way of putting a tree node into a list, then spacing assignments on the inserted node and the models inside it).'
 ASSUMPTIONS = ['read-back after assigning the empty string is not asserted (the accessor then legitimately sees the next run)', 'strings with a bare CR are not assigned']
 SHRINK_LISTS = ('ops', 'dirs')
 REQUIRED_CLASSES = ('after-edit', 'lf:4', 'read-sweep', 'write:before', 'write:after', 'zero-width-adjacent', 'run-with-newline', 'target:token', 'target:model')
